@@ -286,6 +286,26 @@ func c15(c *Ctx) {
 	}
 
 	c15CursorAdvance(c, "C15.6/cursor-advance-matches-read", c16Decoders)
+	// ---- C15.4 (keys) nanosecond keys are built only from timestamps that fit ----------------------------------------
+	// the key codec holds UnixNano() in 8 bytes: outside 1677..2262 UnixNano is undefined and the key order is not the
+	// value order; the conversion is dominated by a lower and an upper range test of the same value
+	r4k := "C15.4/timestamp-key-in-range"
+	if f := c.mustFn(r4k, "embedded/sql.EncodeRawValueAsKey"); f != nil {
+		nanos := sites(f, callTo("time.(Time).UnixNano"))
+		if len(nanos) == 0 {
+			c.undecided(r4k, fnName(f)+":UnixNano", "no UnixNano conversion found")
+		}
+		for i, in := range nanos {
+			in := in
+			for _, side := range []string{"Before", "After"} {
+				side := side
+				inRange := whenCond(false, func(a string) bool { return strings.Contains(a, "time.(Time)."+side) })
+				q := &pathQ{fn: f, fromEntry: true, to: func(x ssa.Instruction) bool { return x == in }, barrier: inRange}
+				c.check(q.bypass() == nil, r4k, fmt.Sprintf("%s:UnixNano#%d:not-%s-limit", fnName(f), i, side), c.pos(in.Pos()), "dominated by the !"+side+"(limit) edge",
+					"a timestamp is converted to nanoseconds for a key without a range test ("+side+"): values outside the int64 nanosecond range wrap around and are indexed out of order")
+			}
+		}
+	}
 	// ---- C15.7 a row decoder steps over a value by both numbers DecodeValueLength returns -------------------------
 	// DecodeValueLength(b) returns the length of the value and the length of its length prefix; every row decoder
 	// (server and client side siblings) advances by both; dropping one shifts every following column
